@@ -618,7 +618,7 @@ def input_class_of(cfg_row: dict, init: dict | None, final: dict | None, rng: ra
     """Turn a counter-branch (configuration + abstract initial state) into concrete compile() jobs of that class."""
     kind = cfg_row['kind']
     lvl = cfg_row['level']
-    gs = GATESETS.get(cfg_row['model'] if cfg_row['model'] in GATESETS else 'default')
+    gsn = cfg_row['model'] if cfg_row['model'] in GATESETS else 'default'
     init = init or {}
     wd = init.get('wd', 3) or 3
     n = {1: 1, 2: 2, 3: 3, 4: 4}.get(wd, 3)
@@ -630,7 +630,7 @@ def input_class_of(cfg_row: dict, init: dict | None, final: dict | None, rng: ra
     jobs = []
     for i in range(count):
         shape = ['line', 'star', 'line', 'all'][i % 4] if cfg_row['model'] != 'default' or i % 2 else 'all'
-        ms = dict(n=n + extra, edges=graph_edges(shape, n + extra), gates=gs)
+        ms = model_spec(n + extra, shape, gsn)
         err = None if not cfg_row['err'] else 1e-3
         seed = 7 if cfg_row['seed'] else None
         if kind == 'circuit':
@@ -639,9 +639,50 @@ def input_class_of(cfg_row: dict, init: dict | None, final: dict | None, rng: ra
             jobs.append(job('circuit', cs, ms, lvl, seed, err=err, tag='directed'))
         else:
             w = cfg_row['width']
-            ms = dict(n=w + extra, edges=graph_edges(shape, w + extra), gates=gs)
+            ms = model_spec(w + extra, shape, gsn)
             jobs.append(job({'system': 'system'}.get(kind, kind), None, ms, lvl, seed, err=err, n=w, iseed=i, tag='directed'))
     return jobs
+
+
+def model_spec(n, shape, gates, rng=None):
+    return dict(n=n, edges=graph_edges(shape, n, rng), gates=GATESETS[gates], gs=gates, shape=shape)
+
+
+def theorem_failure_search(ctx, prop: str, budget: float, judge, fallback_jobs) -> None:
+    """A generated theorem / the translator no longer checks: use the checker's counter-branches to pick input
+    classes and run the real compile() on them."""
+    sys.path.insert(0, str(HERE / 'gen'))
+    import gen_workflows as G
+    rows = {r[0]: dict(name=r[0], kind=r[1], level=r[2], err=r[3], seed=r[4], model=r[5], width=r[6]) for r in G.configs()}
+    fails = failing_configs()
+    jobs = []
+    if fails:
+        mine = [n for n, a, b in fails if not (a if prop == 'c01' else b)]
+        ctx.cov['failing_theorems'] = mine[:40]
+        # one representative per (kind, level, model)
+        picked, seen = [], set()
+        for n in mine:
+            r = rows.get(n)
+            if r is None:
+                continue
+            k = (r['kind'], r['level'], r['model'])
+            if k not in seen:
+                seen.add(k)
+                picked.append(n)
+        picked = picked[:8]
+        cbs = counter_branches(picked)
+        ctx.cov['counter_branches'] = {n: cbs.get(n, {}).get(prop) for n in picked}
+        for n in picked:
+            cb = cbs.get(n, {}).get(prop) or {}
+            jobs += input_class_of(rows[n], cb.get('init'), cb.get('final'), ctx.rng, 3)
+    else:
+        # no diagnosis possible (translator aborted or the Coq side does not build): widen the standing search
+        jobs = fallback_jobs(ctx.rng, 6)
+    ctx.cov['directed_jobs'] = len(jobs)
+    res = run_jobs(jobs, budget)
+    for js, r in zip(jobs, res):
+        judge(ctx, js, r, 'directed search after a failed theorem')
+
 
 
 if __name__ == '__main__':
